@@ -241,7 +241,14 @@ class RuntimeName(Name, Object, Callable):
     def _attrs(self):
         # type: () -> Attributes
         try:
-            return {k: RuntimeName(k, v) for k, v in iteritems(vars(self.value))}
+            if isinstance(self.value, type):
+                # a class: what it defines itself and what it inherits
+                attrs = {}
+                for cls in reversed(self.value.__mro__):
+                    attrs.update(vars(cls))
+            else:
+                attrs = vars(self.value)
+            return {k: RuntimeName(k, v) for k, v in iteritems(attrs)}
         except TypeError:
             return {k: RuntimeName(k, getattr(self.value, k, None)) for k in dir(self.value)}
 
